@@ -192,6 +192,20 @@ def hostile_lines():
     add("ud-blanks", {"command": "signerHeartbeat", "version": 5, "udValue": " ".join(["ab"] * 16)})
     add("ud-blanks-ui", {"command": "uiHeartbeat", "version": 5, "udValue": " ".join(["ab"] * 32)})
     add("ud-upper", {"command": "signerHeartbeat", "version": 5, "udValue": "AB" * 16})
+    add("ud-0x", {"command": "signerHeartbeat", "version": 5, "udValue": "0x" + "ab" * 16})
+    add("ud-0x-ui", {"command": "uiHeartbeat", "version": 5, "udValue": "0x" + "ab" * 32})
+    add("ud-0X", {"command": "signerHeartbeat", "version": 5, "udValue": "0X" + "ab" * 16})
+    add("hash-0x", dict(SH, message={"hash": "0x" + "ab" * 32}))
+    add("receipt-0x", with_auth(SL, receipt="0x" + SL["auth"]["receipt"]))
+    add("tx-0x", with_msg(SL, tx="0x" + SL["message"]["tx"]))
+    add("block-0x", adv(["0x" + b1.hex()]))
+    add("brother-0x", adv([b1.hex()], [["0x" + b1.hex()]]))
+    # commands of the current protocol sent with "version": 1 (judged in both modes)
+    for k in ("advance-nobrothers", "updateAncestor", "reset", "state", "params", "signerHeartbeat",
+              "uiHeartbeat", "sign-legacy"):
+        add("as-v1-%s" % k, dict(N[k], version=1))
+    for k in ("v1-sign", "v1-getPubKey"):
+        add("as-v5-%s" % k, dict(N[k], version=5))
     # v1
     add("v1-msg-dict", {"command": "sign", "version": 1, "keyId": reqs.PATHS[2], "message": {"hash": "aa" * 32}})
     return out
